@@ -909,41 +909,16 @@ Definition sdef_eqb (a b : sdef) : bool :=
 Definition sdoc_eqb := outcome_eqb (list_eqb sdef_eqb).
 
 (* ---- known classes of service documents (on the text) ---- *)
-(* 6: a directive definition without the keyword `repeatable` is marked repeatable *)
-Definition kc_repeatable (fuel : nat) (s : str) : bool :=
-  match parse_rule grammar fuel R_service_document s with
-  | PMatch _ _ [doc] =>
-    existsb (fun d => existsb (fun k =>
-      (t_rule k =? R_directive_definition) &&
-      match find_rule R_repeatable (t_kids k) with
-      | Some r => match t_text r with [] => true | _ => false end
-      | None => false
-      end) (t_kids d)) (t_kids doc)
-  | _ => false
-  end.
-
+(* class 6 (directive definitions always repeatable) was repaired: no predicate *)
 Definition known_class_sdl (s : str) : N :=
   if kc_block_escape s then 1
   else if existsb kc_block_short_blank (block_bodies (S (length s)) s) then 2
   else if kc_float_range s then 5
   else if kc_token_boundary s then 4
-  else if kc_repeatable DOCFUEL s then 6
   else 0.
-
-(* the specification's tree with the flag of known class 6 taken as the code sets it *)
-Definition force_repeatable (o : outcome (list sdef)) : outcome (list sdef) :=
-  match o with
-  | Ok l => Ok (map (fun d => match d with SDirective a b c _ e => SDirective a b c true e | x => x end) l)
-  | x => x
-  end.
 
 Definition check_sdl (c : str * outcome (list sdef)) : N :=
   let '(s, impl) := c in
   let model := parse_schema DOCFUEL s in
   let sp := spec_schema DOCFUEL s in
-  if sdoc_eqb model sp then verdict (sdoc_eqb impl model) true (sdoc_eqb impl sp) 0
-  else if kc_repeatable DOCFUEL s && sdoc_eqb model (force_repeatable sp) then
-    (* only the repeatable flag separates model and specification: anything else
-       that separates the code from the model is judged against the rest of the tree *)
-    (if sdoc_eqb impl model then 106 else if sdoc_eqb impl sp then V_STALE_OK else V_VIOLATION)
-  else verdict (sdoc_eqb impl model) false (sdoc_eqb impl sp) (known_class_sdl s).
+  verdict (sdoc_eqb impl model) (sdoc_eqb model sp) (sdoc_eqb impl sp) (known_class_sdl s).
